@@ -20,7 +20,8 @@ Sub-checks (Violation.subcheck):
   not-lost  a status bit raised by a hardware event is cleared only by firmware, by the documented
             acknowledge paths, or after being taken; an enabled pending request is taken within BOUND steps
   halt      a halted CPU executes nothing, wakes when a status bit is pending, never wakes without one
-  off       additionally: no timer status bit is raised while powered off
+  off       additionally: no timer status bit is raised while powered off, and a running timer's distance to its
+            expiry (model's own target minus model's own cycle counter) does not shrink in a powered-off step
   machine   the model raised an error while stepping a valid scenario
 
 Wider observations (round 2): every record carries the internal-memory window 00-EE (user RAM + BP/PX/PY); a step
@@ -93,6 +94,17 @@ class Monitor:
         self.reset_in_handler = False          # a RESET instruction was executed while a handler was active
         self.reset_targets = (R.MAIN, R.HANDLER)   # contents of the reset vector (0xFFFFD) / of the vector at 0xFFFFA
         self.periods = {0x01: int(sc.get("mti", 0) or 0), 0x02: int(sc.get("sti", 0) or 0)}
+        # round 5: boundaries at which an enabled pending request met a not yet initialised stack pointer
+        self.deferred_boundaries = 0
+        self.deferred_then_valid = False
+        if "s0" in sc:
+            self.labels.add("initial-stack-pointer:" + ("uninitialised" if int(sc["s0"]) < 5 else "valid"))
+        # round 5: powered-off periods with a running timer
+        self.off_run = 0                       # consecutive steps the CPU stayed powered off with a timer armed
+        self.off_rem = 0                       # time the nearest timer still had to run when that period began
+        self.off_steps_armed = 0
+        self.off_wakes_armed = 0
+        self.off_adv_reported = 0              # timers already reported as counting while powered off (once per run)
 
     # ------------------------------------------------------------------ helpers
     def ctx(self, B: Dict[str, Any]) -> str:
@@ -105,6 +117,10 @@ class Monitor:
 
     def _stk(self, obs: Dict[str, Any]) -> bytes:
         return bytes.fromhex(obs["stk"])
+
+    def after_deferral(self) -> str:
+        return (" after a delivery was deferred while the stack pointer was not yet initialised"
+                if self.deferred_boundaries else "")
 
     def after_reset(self) -> str:
         return " after a handler ended with RESET instead of RETI" if self.reset_in_handler else ""
@@ -146,6 +162,22 @@ class Monitor:
         in_handler0 = bool(self.frames)        # a handler is active at the start of this step
         off_mode = B["pw"] != 0 and (self.lp == "OFF" or B["pw"] == 2)
 
+        # requests that are enabled and pending at the boundary this step starts from (bounded response, see the end)
+        elig = 0
+        if B["pw"] != 2 and not off_mode and ctx in ("main", "halt") and not in_handler0 and (B["imr"] & 0x80):
+            elig = B["imr"] & B["isr"] & 0x0F
+        if B["s"] < 5:
+            # Round 5: both step loops document that a delivery is deferred while the system stack pointer is not yet
+            # initialised (S < 5: "IRQ deferred: stack pointer not initialized"); no obligation at such a boundary --
+            # the obligation (sentence 2: not lost, taken promptly) starts at the first boundary with a usable S.
+            if elig:
+                self.deferred_boundaries += 1
+                self.labels.add("enabled-request-pending-while-stack-pointer-uninitialised")
+            elig = 0
+        elif self.deferred_boundaries and elig and not self.deferred_then_valid:
+            self.deferred_then_valid = True
+            self.labels.add("deferred-request-still-pending-once-stack-pointer-valid")
+
         # ---------------- low power at the start of the step
         if B["pw"] != 0:
             stayed = A["pw"] != 0 and e == 0
@@ -175,6 +207,41 @@ class Monitor:
                 self.v("off", ctx, f"timer status {_names(rose_t)} raised while powered off",
                        f"step {k}: ISR {B['isr']:#04x}->{A['isr']:#04x} cycles {B['cyc']}->{A['cyc']} "
                        f"next_mti {B['nm']}->{A['nm']} next_sti {B['ns']}->{A['ns']} power {B['pw']}->{A['pw']}")
+
+        # Round 5: "a powered-off CPU additionally stops both timers" -- judged on the timers' own progress, not only on
+        # status bits: in a step that the model itself reports as powered off at both ends (nothing executed), the
+        # distance between a running timer's own expiry target and the model's own time base (cycle counter) must not
+        # shrink.  Otherwise the time spent powered off is charged to the timer and it expires (at once) after the
+        # wake-up, however long the remaining period was.
+        if B["pw"] == 2:
+            armed = [(bit, key) for bit, key in ((0x01, "nm"), (0x02, "ns")) if self.periods[bit] > 0 and B[key] > 0]
+            if A["pw"] == 2 and e == 0:
+                if armed:
+                    if self.off_run == 0:
+                        self.off_rem = min(B[key] - B["cyc"] for _, key in armed)
+                    self.off_run += 1
+                    self.off_steps_armed += 1
+                    self.labels.add("off-step-with-running-timer")
+                adv = 0
+                for bit, key in armed:
+                    if A[key] - A["cyc"] < B[key] - B["cyc"]:
+                        adv |= bit
+                adv &= ~self.off_adv_reported
+                self.off_adv_reported |= adv
+                if adv:
+                    self.v("off", ctx, f"timer {_names(adv)} kept counting down towards its expiry while powered off",
+                           f"step {k}: cycles {B['cyc']}->{A['cyc']} next_mti {B['nm']}->{A['nm']} next_sti {B['ns']}->{A['ns']} "
+                           f"periods mti={self.periods[1]} sti={self.periods[2]} ISR {B['isr']:#04x}->{A['isr']:#04x} "
+                           f"power {B['pw']}->{A['pw']} (remaining time = model's expiry target - model's cycle counter)")
+            elif self.off_run:
+                # wake-up after a powered-off period with a running timer: classify its length against the time the
+                # timer still had to run when the CPU went off
+                per = max(self.periods.values())
+                self.labels.add("off-period:" + ("shorter-than-remaining-timer" if self.off_run < max(self.off_rem, 1) else
+                                                 ("at-least-remaining-timer" if self.off_run < max(self.off_rem, 1) + per
+                                                  else "remaining-timer-plus-a-period-or-more")))
+                self.off_wakes_armed += 1
+                self.off_run = 0
 
         # ---------------- abstract replay of the step: delivery / instruction in the model's order
         cur = {"pc": B["pc"] & 0xFFFFF, "s": B["s"], "imr": B["imr"], "f": B["f"]}
@@ -297,6 +364,9 @@ class Monitor:
                 isr_writer = True
                 return True
             cur["pc"] = m["next"]
+            if kind == "SETS":
+                cur["s"] = int(m["arg"]) & 0xFFFFF     # MV S,imm20: the firmware loads its system stack pointer
+                self.labels.add("stack-pointer-loaded-by-program")
             if m["imr"] is not None:
                 op, val = m["imr"]
                 cur["imr"] = val if op == "set" else (cur["imr"] | val if op == "or" else cur["imr"] & val)
@@ -448,7 +518,7 @@ class Monitor:
             if stuck:
                 self.v("not-lost", ctx,
                        f"timer {_names(stuck)} is overdue by the model's own cycle counter but did not expire in a step "
-                       "outside any handler" + self.after_reset(),
+                       "outside any handler" + self.after_reset() + self.after_deferral(),
                        f"step {k}: cycles {B['cyc']}->{A['cyc']} next_mti {B['nm']}->{A['nm']} next_sti {B['ns']}->{A['ns']} "
                        f"ISR {B['isr']:#04x}->{A['isr']:#04x} IMR={A['imr']:#04x} model in-interrupt={B['inint']}->{A['inint']} "
                        f"instr={executed['kind'] if executed else None}")
@@ -492,9 +562,6 @@ class Monitor:
                     self.labels.add("still-pending-after-reti")
 
         # ---------------- bounded response for enabled pending requests
-        elig = 0
-        if B["pw"] != 2 and not off_mode and ctx in ("main", "halt") and not in_handler0 and (B["imr"] & 0x80):
-            elig = B["imr"] & B["isr"] & 0x0F
         for bit in list(self.req):
             if delivered_here:
                 self.req[bit][0] = 0
@@ -504,6 +571,8 @@ class Monitor:
                 if self.req[bit][0] >= BOUND:
                     why = (" after a delivery for another source intervened while it was masked"
                            if self.req[bit][1] else "") + self.after_reset()
+                    if not self.req[bit][1]:
+                        why += self.after_deferral()
                     self.v("not-lost", ctx, f"enabled pending request {_names(bit)} not taken within {BOUND} step boundaries" + why,
                            f"step {k}: IMR={B['imr']:#04x} ISR={B['isr']:#04x} model pending-flag={B['pend']} in-interrupt={B['inint']}")
                     self.req.pop(bit, None)
@@ -527,6 +596,13 @@ def evaluate(model: str, sc: Dict[str, Any], run: Dict[str, Any]) -> Monitor:
         B = rec.get("b") or P
         if "b" in rec:
             mon.events(k, P, B, evs.get(k, []))
+        if rec.get("err"):
+            # a step that returned an error but left the machine steppable (Rust adapter, "step_errors": "record"):
+            # the documented deferral notice while S is not initialised is accepted, anything else is a machine error
+            if "IRQ deferred: stack pointer not initialized" in str(rec["err"]) and rec["a"]["s"] < 5:
+                mon.labels.add("step-returned-documented-deferral-error")
+            else:
+                mon.v("machine", "step", "model raised an error while stepping a valid scenario", f"step {k}: {rec['err']}")
         mon.step(k, B, rec["a"], rec.get("dl"))
         P = rec["a"]
         if mon.dead:
